@@ -288,6 +288,30 @@ pub fn run(ctx: &Ctx) -> Outcome {
     let without = documents(false);
     // documents without announce must be rejected
     docs.extend(without);
+    // cut-off documents: the same documents without their last byte (the closing 'e' of the
+    // top-level dictionary; the decoder tolerates that, see the C16 finding). If the client accepts
+    // one, the hash must still be that of the complete document's top-level info value.
+    let cut: Vec<Doc> = docs.iter().filter(|d| d.desc.contains("trailer#0") && d.bytes.last() == Some(&b'e')).map(|d| Doc { bytes: d.bytes[..d.bytes.len() - 1].to_vec(), desc: format!("CUT-OFF last byte of: {}", d.desc) }).collect();
+    let cut_results = core::par_map(&cut, |_| core::set_quiet_panics(true), |_, _, d| {
+        let mut full = d.bytes.clone();
+        full.push(b'e');
+        match core::catch(|| Metainfo::from_bencode(&d.bytes)) {
+            Err(p) => Res::Violation("metainfo-panic", format!("document {}: {}", core::show(&d.bytes), p)),
+            Ok(Err(_)) => Res::Rejected,
+            Ok(Ok(m)) => match reference_hash(&full) {
+                Some(h) if &h == m.info_hash() => Res::Agree,
+                other => Res::Violation("cut-off-document-hashed-from-another-value", format!("document {} (its last byte is missing) is accepted with info_hash {} but the top-level info value hashes to {:?}", core::show(&d.bytes), core::hex(m.info_hash()), other.map(|h| core::hex(&h)))),
+            },
+        }
+    });
+    let mut cut_accepted = 0u64;
+    for (d, r) in cut.iter().zip(cut_results.iter()) {
+        match r {
+            Res::Rejected => {}
+            Res::Agree => cut_accepted += 1,
+            Res::Violation(class, summary) => ctx.violation(class, format!("{} [{}]", summary, d.desc), json!({"hex": core::hex(&d.bytes), "text": core::show(&d.bytes), "desc": d.desc, "cut": true})),
+        }
+    }
     let results = core::par_map(&docs, |_| core::set_quiet_panics(true), |_, _, d| check_doc(&d.bytes));
     let mut accepted = 0u64;
     let mut rejected = 0u64;
@@ -302,11 +326,13 @@ pub fn run(ctx: &Ctx) -> Outcome {
         }
     }
     let mut o = Outcome::new("exploration");
-    o.set("evaluations", json!(docs.len()));
+    o.set("evaluations", json!(docs.len() + cut.len()));
+    o.set("cut_off_documents", json!(cut.len()));
+    o.set("cut_off_documents_accepted", json!(cut_accepted));
     o.set("distinct_nontrivial", json!(accepted));
     o.set("accepted", json!(accepted));
     o.set("rejected", json!(rejected));
-    o.set("rule", json!("documents = one top-level dictionary {announce, any subset of the keys a:info/comment/infoo/z:info each with one of 7 value shapes (the string info itself in two length spellings, a string spelled 4:info, 3 containers with a nested key spelled info), info} in 4 key orders (sorted, reversed, info first, info last) x 10 info dictionaries (canonical, reversed keys, extra keys incl. a nested info key, leading-zero string lengths, multi-file, info key inside info, and four with zero-padded lengths in front of a name / pieces string / path that ends in 'e' bytes) x info key spelled 4:info or 04:info x 4 trailers after the dictionary x (for one sibling-shape combination per key subset) 6 leaders in front of it: nothing, non-dictionary values, decoy dictionaries without announce but with a top-level info key; plus the same family without announce (every one must be rejected); plus documents with the info key twice (info values pairwise, 3 separators, both orders). All documents are distinct byte strings; non-trivial = accepted by Metainfo::from_bencode, for which the hash is compared."));
+    o.set("rule", json!("documents = one top-level dictionary {announce, any subset of the keys a:info/comment/infoo/z:info each with one of 7 value shapes (the string info itself in two length spellings, a string spelled 4:info, 3 containers with a nested key spelled info), info} in 4 key orders (sorted, reversed, info first, info last) x 10 info dictionaries (canonical, reversed keys, extra keys incl. a nested info key, leading-zero string lengths, multi-file, info key inside info, and four with zero-padded lengths in front of a name / pieces string / path that ends in 'e' bytes) x info key spelled 4:info or 04:info x 4 trailers after the dictionary x (for one sibling-shape combination per key subset) 6 leaders in front of it: nothing, non-dictionary values, decoy dictionaries without announce but with a top-level info key; plus the same family without announce (every one must be rejected); plus documents with the info key twice (info values pairwise, 3 separators, both orders). Plus every document without trailer once more without its last byte (cut-off .torrent): refused, or hashed like the complete one. All documents are distinct byte strings; non-trivial = accepted by Metainfo::from_bencode, for which the hash is compared."));
     if (accepted as f64) < 0.4 * docs.len() as f64 {
         ctx.machinery_error(format!("vacuity: only {} of {} documents accepted", accepted, docs.len()));
     }
